@@ -314,7 +314,25 @@ def build_layout(spec):
     return B.reserial(atoms), expect
 
 
-def pdb_text(spec, ter=True):
+TER_STYLES = ["full", "bare", "blanks", "serial", "short", "wide"]
+
+
+def restyle_ter(line, style):
+    """The same chain separator in another spelling: any line starting with TER ends a chain."""
+    if style == "bare":
+        return "TER"
+    if style == "blanks":
+        return "TER" + " " * 77
+    if style == "serial":
+        return line[:11]
+    if style == "short":  # wrong width / justification inside the record's own columns (the record name stays "TER   ")
+        return "TER   " + line[6:11].strip() + " " + line[17:20]
+    if style == "wide":
+        return line.rstrip() + "   END OF CHAIN"
+    return line
+
+
+def pdb_text(spec, ter=True, ter_style=None):
     """ter: True / False, or a list of booleans = which of the TER records (one per chain with polymer records,
     in file order) are kept.  Returns (text, expect) with expect adjusted to the INPUT's own chain ends."""
     from harness import builder as B
@@ -327,14 +345,16 @@ def pdb_text(spec, ter=True):
         per[e["chain"]] += r
     mask = ter if isinstance(ter, list) else None
     text = B.to_pdb([c for c in per if c], ter=True if mask is not None else ter, hetatm_for=("HOH", "LIG", "NME", "NH2"))
-    if mask is not None:
+    if mask is not None or ter_style:
         out, k = [], 0
         for ln in text.splitlines():
             if ln.startswith("TER"):
-                keep = mask[k] if k < len(mask) else True
+                keep = True if mask is None else (mask[k] if k < len(mask) else True)
+                st = ter_style if isinstance(ter_style, str) else (ter_style[k % len(ter_style)] if ter_style else "full")
                 k += 1
                 if not keep:
                     continue
+                ln = restyle_ter(ln, st)
             out.append(ln)
         text = "\n".join(out) + "\n"
     return text, apply_input_rules(spec, expect, ter)
@@ -450,7 +470,10 @@ def gen_layout(rng):
         ter = [i == one for i in range(nch)]  # exactly one
     else:
         ter = [rng.random() < 0.5 for _ in range(nch)]
-    return {"spec": spec, "ter": ter, "neutraln": rng.random() < 0.25, "neutralc": rng.random() < 0.25}
+    lay = {"spec": spec, "ter": ter, "neutraln": rng.random() < 0.25, "neutralc": rng.random() < 0.25}
+    if rng.random() < 0.5:  # the TER records in other spellings
+        lay["ter_style"] = [rng.choice(TER_STYLES) for _ in range(nch)]
+    return lay
 
 
 # ==================================================================================
@@ -477,7 +500,7 @@ def termini_case(lay):
     """(coq term, impl string) for one layout."""
     from harness import builder as B
 
-    text, _ = pdb_text(lay["spec"], ter=lay["ter"])
+    text, _ = pdb_text(lay["spec"], ter=lay["ter"], ter_style=lay.get("ter_style"))
     # the hidden-end markers (OXT; H3T or a residue name ending in 3) are read from the INPUT records, not from the
     # residue objects: an atom dropped or renamed while the residue is built shows up as a disagreement
     in_names, by_serial, key, in_where, nter, in_xyz = [], {}, None, [], 0, []
@@ -633,7 +656,7 @@ def run_case(ctx, case):
     from harness import builder as B
     from pdb2pqr import biomolecule as pbio
 
-    text, expect = pdb_text(case["spec"], ter=case.get("ter", True))
+    text, expect = pdb_text(case["spec"], ter=case.get("ter", True), ter_style=case.get("ter_style"))
     cap = {}
     orig = pbio.Biomolecule.apply_force_field
 
@@ -738,7 +761,7 @@ def judge(ctx, case, out, stats):
     ff, opts = case["ff"], case.get("opts", [])
     exp = out["expect"]
     res = out["res"]
-    tag = {"ff": ff, "opts": opts, "spec": case["spec"], "ter": case.get("ter", True)}
+    tag = {"ff": ff, "opts": opts, "spec": case["spec"], "ter": case.get("ter", True), "ter_style": case.get("ter_style")}
     if res is None:
         # ended before parameter assignment: not a charge question (C12's subject); count
         stats["no-assignment"] = stats.get("no-assignment", 0) + 1
@@ -941,6 +964,10 @@ def blank_chain_cases():
         for oxt in (False, True):
             for ter in ([True, False], [True, True], [False, False]):
                 cases.append({"spec": two(oxt), "ter": ter, "ff": ff, "opts": []})
+        if ff in ("AMBER", "PARSE"):
+            for st in TER_STYLES[1:]:
+                cases.append({"spec": two(False), "ter": [True, True], "ter_style": st, "ff": ff, "opts": []})
+            cases.append({"spec": two(False) + [{"type": "pep", "chain": " ", "segments": [["THR", "GLU"]], "oxt": False, "start": 21, "extras": []}], "ter": True, "ter_style": ["full", "bare", "serial"], "ff": ff, "opts": []})
         cases.append({"spec": [{"type": "pep", "chain": " ", "segments": [["SER", "ASP"]], "oxt": False, "start": 1, "extras": ["wat"]},
                                {"type": "pep", "chain": "A", "segments": [["GLY", "ALA", "LYS"]], "oxt": False, "start": 21, "extras": []},
                                {"type": "pep", "chain": " ", "segments": [["THR", "GLU"]], "oxt": False, "start": 41, "extras": ["wat"]}], "ter": [True, True, False], "ff": ff, "opts": []})
@@ -961,7 +988,7 @@ def search(ctx, volume, seeds=()):
     for lay in seeds:  # layouts on which the termini correspondence disagreed
         for ff in ("AMBER", "PARSE"):
             opts = (["--neutraln"] if lay.get("neutraln") else []) + (["--neutralc"] if lay.get("neutralc") else [])
-            cases.append({"spec": lay["spec"], "ter": lay.get("ter", True), "ff": ff, "opts": opts if ff == "PARSE" else []})
+            cases.append({"spec": lay["spec"], "ter": lay.get("ter", True), "ter_style": lay.get("ter_style"), "ff": ff, "opts": opts if ff == "PARSE" else []})
     first = None
     cases_results = []
     for case in cases:
@@ -1030,7 +1057,7 @@ def replay(ctx, data):
         return 1
     sys.path.insert(0, str(core.VERIF / "gen"))
     before = len(ctx.failures) + sum(ctx.known_hits.values())
-    out = run_case(ctx, {"spec": case["spec"], "ter": case.get("ter", True), "ff": case["ff"], "opts": case.get("opts", [])})
+    out = run_case(ctx, {"spec": case["spec"], "ter": case.get("ter", True), "ter_style": case.get("ter_style"), "ff": case["ff"], "opts": case.get("opts", [])})
     judge(ctx, case, out, {})
     after = len(ctx.failures) + sum(ctx.known_hits.values())
     print("replay:", "FAILS" if after > before else "passes", "|", out["err"] or [(r["ffname"], r["exact"]) for r in (out["res"] or [])])
